@@ -326,8 +326,8 @@ class Interp:
             try:
                 self.exec_block(s.body, env)
             except _Break as b:
-                # an unlabeled `break` targets the innermost breakable construct, which a plain block is too
-                if b.label is not None and b.label != s.label:
+                # an unlabeled `break` targets the innermost *labeled* block or loop; plain blocks are skipped
+                if (b.label is None and s.label is None) or (b.label is not None and b.label != s.label):
                     raise
         elif k == "Break":
             raise _Break(s.label, None if s.value is None else cp(self.ev(s.value, env)))
@@ -514,7 +514,7 @@ class Interp:
             try:
                 return self.exec_block(e.stmts, env, new_scope=True, tail=e.tail)
             except _Break as b:
-                if b.label is not None and b.label != e.label:
+                if (b.label is None and e.label is None) or (b.label is not None and b.label != e.label):
                     raise
                 return b.value
         if k == "LambdaE":
